@@ -244,6 +244,7 @@ func genTravOpts(r *RNG, api uint64) travOpts {
 	}
 	if api == 4 {
 		o.nilRoots = r.Bool()
+		o.plain = r.Bool()
 	}
 	return o
 }
@@ -303,7 +304,7 @@ func fixedCases(c *Ctx) {
 		}
 		for api := uint64(0); api <= 4; api++ {
 			for _, dups := range []bool{true, false} {
-				tc := &travCase{api: api, roots: []cid.Cid{g.top.c}, sel: selSpec{kind: 0}, opts: travOpts{dups: dups}, store: store}
+				tc := &travCase{api: api, roots: []cid.Cid{g.top.c}, sel: selSpec{kind: 0}, opts: travOpts{dups: dups, plain: dups}, store: store}
 				emitTrav(c, tc, func(Val) bool { return true })
 				c.Count("fixed:" + g.name)
 			}
@@ -352,7 +353,7 @@ func smallScope(c *Ctx) {
 		}
 		for api := uint64(0); api <= 4; api++ {
 			for _, dups := range []bool{true, false} {
-				tc := &travCase{api: api, roots: []cid.Cid{nodes[0].c}, sel: selSpec{kind: 0}, opts: travOpts{dups: dups}, store: store}
+				tc := &travCase{api: api, roots: []cid.Cid{nodes[0].c}, sel: selSpec{kind: 0}, opts: travOpts{dups: dups, plain: dups}, store: store}
 				emitTrav(c, tc, func(traces Val) bool { d, _, ok := traceStats(traces); return ok && d >= 3 })
 				c.Count("small-scope:4-node-dag")
 			}
